@@ -267,6 +267,27 @@ func space(first int) {
 		seq[0] = alphabet[first]
 		rec(1, depth)
 	}
+	// long pauses (minutes to more than an hour) before and between messages:
+	// every tempo x resolution, sequences of one and two messages
+	long := []int32{300000, 5000000}
+	for _, m2 := range alphabet {
+		for _, g1 := range long {
+			for _, g2 := range append([]int32{0}, long...) {
+				for _, bpm := range tempi {
+					for _, res := range resolutions {
+						// a pause whose tick count exceeds the format's 28-bit maximum cannot be
+						// stored in any valid SMF: outside the domain (DESIGN.md 0.2, C13)
+						if float64(g1+g2)/1000*bpm/60*float64(res) > 0x0FFFFFFF { // (a skipped message carries its time over)
+							ctx.Add("long_pauses_beyond_format_maximum_skipped", 1)
+							continue
+						}
+						record([]ls.SMsg{alphabet[first], m2}, []int32{g1, g2}, bpm, res, "track")
+						ctx.Add("long_pause_recordings", 1)
+					}
+				}
+			}
+		}
+	}
 }
 
 func main() {
